@@ -75,6 +75,9 @@ func runC05() *RunResult {
 			switch o.Kind {
 			case opCall:
 				o.RefFn = soloParse(o.Path, o.Cfg)
+				if o.Path.UsesFuncs&(1<<fYF|1<<fYA) != 0 && o.RefFn.Fn != nil {
+					o.RefFn.SelfFn = soloParse(o.Path, o.Cfg).Fn
+				}
 			case opRetrieve:
 				o.RefFn = soloParse(o.Path, o.Cfg)
 			}
